@@ -13,9 +13,9 @@ KIND_PROPS = {
     "with": {"C09", "C02", "C03", "C04", "C05", "C08", "C11", "C12", "C16", "C17"},
     "set": {"C09", "C02", "C03", "C04", "C05", "C08", "C11", "C12", "C16", "C17"},
     "setwith": {"C02", "C03", "C04", "C05", "C08"},
-    "oob_get": {"C09", "C03", "C16"},
-    "oob_with": {"C09", "C03", "C16"},
-    "oob_set": {"C09", "C03", "C16"},
+    "oob_get": {"C09", "C03", "C16", "C11"},
+    "oob_with": {"C09", "C03", "C16", "C11"},
+    "oob_set": {"C09", "C03", "C16", "C11"},
     "ctor": {"C09", "C01", "C06", "C11", "C16"},
     "raw": {"C09", "C06", "C11", "C16"},
     "consts": {"C06"},
@@ -125,10 +125,13 @@ def struct_contracts(s: Struct, with_builder=True):
         if f.writable:
             pre = conj(inv_self, bound, value_valid(f.ty, val))
             new = f"put_spec($SELFRAW as u128, {f.ranges_lit()}, {shift}, {f.ty.view(val)})"
+            inv_post = [f"kani::ensures(|r: &{S}| {inv_expr(s, 'r.$RAW')})"] if s.arbitrary_base else []
             out.append({"impl": S, "trait": None, "fn": f"with_{f.base}", "attrs": [
-                f"kani::requires({pre})",
-                f"kani::ensures(|r: &{S}| {conj(inv_expr(s, 'r.$RAW'), f'(r.$RAW as u128) == {new}')})"]})
+                f"kani::requires({pre})"] + inv_post + [
+                f"kani::ensures(|r: &{S}| (r.$RAW as u128) == {new})"]})
             newo = f"put_spec(old($SELFRAW) as u128, {f.ranges_lit()}, {shift}, {f.ty.view(val)})"
+            # (two ensures clauses on a `&mut self` function do not borrow-check in Kani's expansion: set_ keeps one conjunction;
+            #  with_ above carries the invariant as a clause of its own so that C16 can tell it from the value equation)
             out.append({"impl": S, "trait": None, "fn": f"set_{f.base}", "attrs": [
                 f"kani::requires({pre})",
                 "kani::modifies(self)",
